@@ -9,7 +9,7 @@ PROP = {'counts': {'quick': 2, 'thorough': 20},
          'heartbeatManager / replication.Manager with the locks held at each access; '
          'ReplLocksFacts.repl_fields_protected, repl_sessions_under_primary_mu, repl_lock_order_acyclic, '
          'repl_no_self_nesting by vm_compute: a map write of the session map under a shared lock, a new lock '
-         'nesting cycle or a re-acquired replication lock breaks them). Dynamic: one case = one dynamic probe: a real primary (engine + replication.Manager, heartbeat interval/timeout '
+         'nesting cycle or a re-acquired replication lock breaks them) AND the pkg/replication rows of gen/LockLeaks.v (gofacts/lockleaks.go: no way out of a function or loop iteration with an explicitly taken mutex still locked, no Unlock on a path that has released it already - the runtime would abort the primary; ReplLocksFacts.repl_locks_released_exactly_once). Dynamic: one case = one dynamic probe: a real primary (engine + replication.Manager, heartbeat interval/timeout '
          'shortened through PrimaryConfig.HeartbeatConfig), real healthy replicas, and one misbehaving raw gRPC '
          'client of the replication service (never reads its stream / reads but never acknowledges / reads '
          'slowly / rotated log with one lagging and two continuously acknowledging replicas / connection reset through a TCP forwarder / connection frozen through the forwarder / none: '
@@ -29,10 +29,7 @@ PROP = {'counts': {'quick': 2, 'thorough': 20},
                  'state.go left out); its approximations are items 1-13 of the trusted base of C07 (one lock / '
                  'location per (type, field); roots = exported methods of replication.Primary and Manager, gRPC '
                  'handlers without the no-close assumption, WAL observer callbacks with WAL.mu held; fresh locals '
-                 'private until handed over); the four session fields on its allow list marked FINDING '
-                 '(ReplicaSession.Connected/Active/LastAckSequence/LastActivity) are genuine data races of kevo that '
-                 'the statement excludes: they cannot abort the process (flags, a counter, a timestamp) but a reader '
-                 'may see a stale or torn value',
+                 'private until handed over); the allow list is empty since kevo commit fe6e3ed (session flags, acknowledged sequence and activity time are read under the session mutex)',
                  'the blocking table is syntactic (gofacts/blocking.go): block-structured lock sets, one lock per '
                  '(type, field), interface calls resolved to every implementing type of pkg/wal, '
                  'pkg/engine/storage, pkg/replication; its approximations are listed in the generated file',
